@@ -62,8 +62,11 @@ func randBig(rng *rand.Rand, maxDigits int) *big.Int {
 	return v.Add(v, big.NewInt(1))
 }
 
+// atMs is T0 + ms milliseconds (not through time.Duration, which saturates at about 292 years)
+func atMs(ms int64) time.Time { return time.UnixMilli(env.T0.UnixMilli() + ms).UTC() }
+
 func buildReal(ps []NumPeriod, startMs int64) mtypes.Params {
-	p := mtypes.Params{MintDenom: "uc4e", StartTime: env.T0.Add(time.Duration(startMs) * time.Millisecond)}
+	p := mtypes.Params{MintDenom: "uc4e", StartTime: atMs(startMs)}
 	for i, np := range ps {
 		var cfg *codectypes.Any
 		amt, _ := sdk.NewIntFromString(np.Amount)
@@ -78,7 +81,7 @@ func buildReal(ps []NumPeriod, startMs int64) mtypes.Params {
 		}
 		mi := &mtypes.Minter{SequenceId: uint32(i + 1), Config: cfg}
 		if np.EndMs >= 0 {
-			t := env.T0.Add(time.Duration(np.EndMs) * time.Millisecond)
+			t := atMs(np.EndMs)
 			mi.EndTime = &t
 		}
 		p.Minters = append(p.Minters, mi)
@@ -101,6 +104,9 @@ func randSchedule(rng *rand.Rand) ([]NumPeriod, int64) {
 		lenMs := int64(1000 * (1 + rng.Intn(400000))) // 1 s .. ~4.6 days
 		if rng.Intn(3) == 0 {
 			lenMs = int64(1000*(1+rng.Intn(400))) * 86400 // up to ~1 year
+		}
+		if kind != "EXP" && rng.Intn(8) == 0 {
+			lenMs = int64(300+rng.Intn(300)) * 365 * 86400 * 1000 // three to six centuries: longer than a time.Duration can hold
 		}
 		switch kind {
 		case "LIN":
@@ -228,7 +234,7 @@ func RunNumeric(n int, seed int64) (*NumMinterResult, error) {
 			before := e.App.BankKeeper.GetSupply(ctx, "uc4e").Amount
 			prev := before
 			for _, t := range ts {
-				ctx = ctx.WithBlockTime(env.T0.Add(time.Duration(t) * time.Millisecond)).WithBlockHeight(ctx.BlockHeight() + 1)
+				ctx = ctx.WithBlockTime(atMs(t)).WithBlockHeight(ctx.BlockHeight() + 1)
 				if p := env.Try(func() { cfeminter.BeginBlocker(ctx, k) }); p != "" {
 					return ctx, nil, p
 				}
